@@ -1,6 +1,7 @@
 import DnsVerif.Lemmas.NameSound
 import DnsVerif.Lemmas.NameFuel
 import DnsVerif.Lemmas.SafeMsg
+import DnsVerif.Lemmas.SafeRunMsg
 
 /-! # C07 — hostile compression cannot make decoding loop or blow up
 
@@ -11,9 +12,12 @@ RFC 1035 derivation with at most 17 hops and at most 255 wire octets (so a cycli
 accepted), and that the octets examined per name are exactly `1 + sz n + 2·hops ≤ 289`.
 Message level: the octets examined by a successful `Dns::decode` are at most `304·len + 304` (sharper:
 `290·len`), whatever pointer structure the input contains; every entry point terminates without fuel
-exhaustion (C01). For FAILING runs the model's errors do not carry the cost; there the bound is enforced on
-the real crate by the `verif` hook's octet budget (a budget overrun is a replayable panic), which makes
-the failing-run half of the cost statement PARTIAL (exercised, not proved). -/
+exhaustion (C01). For FAILING runs the model's errors do not carry the cost; instead `Safe.decodeXC b`
+(Lemmas/SafeRun*.lean) is the final value of the octet counter of the run, defined by following the
+model's own control flow: it equals `d.cost` on success and is bounded by `304·len + 304` on EVERY run
+(the counter is monotone, so the bound holds at every intermediate point). The driver prints it on error
+lines and the correspondence run compares it with the hook's counter on every failing decode as well.
+The harness budget `1000·(len+1)` is therefore provably never reached. -/
 
 namespace C07
 
@@ -60,5 +64,30 @@ theorem cyclic_is_error {b : Bytes} {x j k : Nat} (hb : b.length < 2 ^ 63) (h1 :
 
 /-- termination of every entry point (no fuel exhaustion) -/
 theorem decodeDns_terminates {b : Bytes} (h : b.length < 2 ^ 63) : decodeDns b ≠ .error .fuel := Safe.decodeDns_noFuel h
+
+/-! ## Every run, failing ones included -/
+
+/-- the octets examined by ANY run of `Dns::decode` — accepted or rejected at any point — are at most
+`304·len + 304` -/
+theorem decodeDns_work_bounded (b : Bytes) : Safe.decodeDnsC b ≤ 304 * b.length + 304 := by
+  have := Safe.decodeDnsC_le b
+  simpa [Safe.costBound] using this
+
+/-- on accepting runs the instrumented counter is the cost of the run -/
+theorem decodeDns_work_is_cost {b : Bytes} {v : Msg} {d : D} (h : decodeDns b = .ok (v, d)) : Safe.decodeDnsC b = d.cost :=
+  Safe.decodeDnsC_ok h
+
+theorem decodeRR_work_bounded {b : Bytes} (hb : b.length < 2 ^ 63) : Safe.decodeRRC b ≤ 304 * b.length + 304 := by
+  have := Safe.decodeRRC_le hb
+  simpa [Safe.costBound] using this
+theorem decodeName_work_bounded {b : Bytes} (hb : b.length < 2 ^ 63) : Safe.decodeNameC b ≤ 304 * b.length + 304 := by
+  have := Safe.decodeNameC_le hb
+  simpa [Safe.costBound] using this
+theorem decodeQuestion_work_bounded {b : Bytes} (hb : b.length < 2 ^ 63) : Safe.decodeQuestionC b ≤ 304 * b.length + 304 := by
+  have := Safe.decodeQuestionC_le hb
+  simpa [Safe.costBound] using this
+
+/-- the budget the harness arms the hook with is never reached -/
+theorem budget_never_reached (b : Bytes) : Safe.decodeDnsC b ≤ 1000 * (b.length + 1) := Safe.decodeDnsC_le_budget b
 
 end C07
